@@ -293,11 +293,11 @@ func Run(c *core.Ctx) int {
 		}
 		jobs = append(jobs, job{&core.Program{Name: fmt.Sprintf("c16/minify-profile-%d", i), Files: MinifyProgram(c.Rand(fmt.Sprint("mp", i)), big)}, "profile"})
 	}
-	for i := 0; i < c.N(16, 300); i++ {
+	for i := 0; i < c.N(16, 120); i++ {
 		files, _ := IncJSProgram(c.Rand(fmt.Sprint("incjs", i)))
 		jobs = append(jobs, job{&core.Program{Name: fmt.Sprintf("c16/incjs-%d-%d", c.Seed, i), Files: files}, "profile"})
 	}
-	ng := c.N(28, 400)
+	ng := c.N(28, 200)
 	for i := 0; i < ng; i++ {
 		r := c.Rand(fmt.Sprint("gen", i))
 		p := progen.Generate(r, progen.Options{Cases: 8 + r.Intn(8), StmtsPer: 6 + r.Intn(8), BoxStruct: true})
